@@ -4,6 +4,7 @@ import itertools
 
 import exprio
 import graphcap
+import graphforms
 import vlib
 
 PROPS = "Props/C06.v"
@@ -161,9 +162,12 @@ def run_impl(kind, prim, n, edges, form, cont, rng, pre=0, how="public", og="G")
     g = graphcap.mk_graph(n, edges)
     st0 = exprio.show_state(s)
     actl = exprio.show_list(acts)
-    carg = {"S": acts, "T": tuple(acts), "A": None}[cont]
-    if cont == "A":
+    if cont in graphforms.ONESHOT:
+        carg = graphforms.oneshot(cont, acts)     # the model sees the materialised list (container kind S)
+    elif cont == "A":
         carg = BoolArray1D(acts)
+    else:
+        carg = {"S": acts, "T": tuple(acts)}[cont]
     gt = graphcap.graph_tok(n, edges).strip()
     if how == "internal":
         f = G._active_edges_single_cycle if kind == "cyc" else G._active_edges_single_path
@@ -178,11 +182,16 @@ def run_impl(kind, prim, n, edges, form, cont, rng, pre=0, how="public", og="G")
         if how == "public":
             def call():
                 return f(s, carg, g if og == "G" else None, use_graph_primitive=prim)
-        else:  # "config": use_graph_primitive left to the configuration
+        elif how == "kwargs":  # every argument by keyword
+            def call():
+                return f(solver=s, is_active_edge=carg, graph=(g if og == "G" else None), use_graph_primitive=prim)
+        else:  # "config": use_graph_primitive left to the configuration; "none": given explicitly as None
             def call():
                 old = config.use_graph_primitive
                 config.use_graph_primitive = prim
                 try:
+                    if how == "none":
+                        return f(s, carg, (g if og == "G" else None), use_graph_primitive=None)
                     return f(s, carg, graph=(g if og == "G" else None))
                 finally:
                     config.use_graph_primitive = old
@@ -228,6 +237,66 @@ def run_impl_frame(kind, prim, h, w, form, rng, pre=0, with_graph=False):
     return req, ("ok", ("?", "result class " + type(res).__name__))
 
 
+def graph_snapshot(g):
+    return (g.num_vertices, list(g.edges), [list(l) for l in g.incident_edges])
+
+
+def run_history(kind1, prim1, kind2, prim2, n, edges, form, rng, mode, pre=0):
+    """two calls on the same Solver with the same Graph object and the same flag *list*:
+    mode 'same'      -- nothing changes in between;
+    mode 'extend'    -- the caller adds an edge to the Graph and appends a flag to the list in between;
+    mode 'linegraph' -- the caller calls graph.line_graph() twice in between (must not disturb the graph).
+    -> [(kind, info, request line or None, expected (if no request), impl outcome)]: the second request starts from
+    the state the first call left; the side conditions (arguments unchanged, line_graph stable) are compared with values
+    computed here."""
+    from cspuz import Solver, graph as G
+    from cspuz.array import BoolArray1D
+    fs = {"cyc": G.active_edges_single_cycle, "path": G.active_edges_single_path}
+    s = Solver()
+    pre_state(s, rng, pre)
+    acts = make_acts(s, len(edges), form, rng)
+    g = graphcap.mk_graph(n, edges)
+    edges = list(edges)
+    out = []
+
+    def one(kind, prim, tag):
+        st0 = show_state_c(s)
+        snap_a, snap_g = list(acts), graph_snapshot(g)
+        req = "%s %d G %s S %s %s" % ("WCYC" if kind == "cyc" else "WPATH", int(prim),
+                                      graphcap.graph_tok(n, edges).strip(), st0, exprio.show_list(acts))
+        r = vlib.guarded(lambda: fs[kind](s, acts, g, use_graph_primitive=prim))
+        if r[0] == "err":
+            io = norm_err(r)
+        elif isinstance(r[1], BoolArray1D):
+            io = ("ok", (show_state_c(s), "1 " + exprio.show_list(r[1].data)))
+        else:
+            io = ("ok", ("?", "result class " + type(r[1]).__name__))
+        out.append(("history_" + mode, (tag, kind, prim, n, tuple(edges), form), req, None, io))
+        same = (len(acts) == len(snap_a) and all(a is b for a, b in zip(acts, snap_a)) and graph_snapshot(g) == snap_g
+                and graph_snapshot(g) == graph_snapshot(graphcap.mk_graph(n, edges)))
+        out.append(("args_unchanged", (tag, mode, kind, prim, n, tuple(edges), form), None, "unchanged",
+                    "unchanged" if same else "flag list or Graph modified by the call"))
+        return r[0] == "ok"
+    if not one(kind1, prim1, "first"):
+        return out
+    if mode == "extend" and n >= 2:
+        a = rng.randrange(n)
+        b = (a + 1 + rng.randrange(n - 1)) % n
+        g.add_edge(a, b)
+        edges.append((a, b))
+        acts.append(s.bool_var() if form != "const" else True)
+    elif mode == "linegraph":
+        snap_g = graph_snapshot(g)
+        l1 = vlib.guarded(lambda: graph_snapshot(g.line_graph()))
+        l2 = vlib.guarded(lambda: graph_snapshot(g.line_graph()))
+        norm = [(r[0], (r[1][0], sorted(r[1][1]))) if r[0] == "ok" else r for r in (l1, l2)]
+        out.append(("line_graph_twice", (n, tuple(edges)), None, norm[0], norm[1]))
+        out.append(("args_unchanged", ("line_graph", n, tuple(edges)), None, "unchanged",
+                    "unchanged" if graph_snapshot(g) == snap_g else "Graph modified by line_graph()"))
+    one(kind2, prim2, "second")
+    return out
+
+
 # ---------------------------------------------------------------- scopes
 
 NAMED = {
@@ -260,6 +329,20 @@ def graph_scope(ctx, what):
             out.append((k, n, es))
         for h, w in graphcap.grid_shapes(12 if ctx.thorough else 9):
             out.append(("grid", h * w, graphcap.grid_edges(h, w)))
+        # graph forms: the exhaustive graphs again with shuffled edge order / flipped endpoints, self-loops,
+        # structured instances beyond the exhaustive scope (complete graphs, wheels, disjoint cycles, bundles, ...)
+        for n, es in graphcap.all_multigraphs(4, 5):
+            if len(es) >= 1:
+                out.append(("ex-flip", n, graphforms.shuffled(rng, es)))
+        for n, es in graphcap.all_multigraphs(3, 3, loops=True):
+            if any(a == b for a, b in es):
+                out.append(("loops", n, graphforms.shuffled(rng, es)))
+        for _ in range(60 if ctx.thorough else 15):
+            n, es = graphcap.random_multigraph(rng, 6, loops=True)
+            out.append(("loops", n, es))
+        for (k, n, es) in graphforms.structured(rng, loops=True):
+            out.append(("big:" + k, n, es))
+            out.append(("big:" + k, n, graphforms.shuffled(rng, es)))
     else:
         deep = getattr(ctx, "deep", False)
         big = ctx.thorough
@@ -280,6 +363,33 @@ def graph_scope(ctx, what):
             out.append(("rnd", n, es))
         for k, (n, es) in NAMED.items():
             out.append((k, n, es))
+        # graph forms: exhaustive graphs stored with shuffled edge order / flipped endpoints (a sample in quick), small
+        # graphs with self-loops (an active loop is a cycle of length one: the vertex has degree 2)
+        for n, es in graphcap.all_multigraphs(4, 5):
+            if len(es) >= 2 and (big or rng.random() < (0.5 if deep else 0.22)):
+                out.append(("ex-flip", n, graphforms.shuffled(rng, es)))
+        for n, es in graphcap.all_multigraphs(3, 3, loops=True):
+            if any(a == b for a, b in es) and (big or deep or rng.random() < 0.5):
+                out.append(("loops", n, graphforms.shuffled(rng, es)))
+    return out
+
+
+def big_scope(ctx):
+    """(tag, n, edges, patterns): structured instances beyond the exhaustive scope with targeted edge subsets"""
+    rng = ctx.rng
+    big = ctx.thorough
+    deep = getattr(ctx, "deep", False)
+    out = []
+    for (k, n, es) in graphforms.structured(rng, loops=True):
+        forms = [es] if not (big or deep) else [es, graphforms.shuffled(rng, es)]
+        if not (big or deep) and rng.random() < 0.5:
+            forms = [graphforms.shuffled(rng, es)]
+        for f in forms:
+            if len(f) <= 7:
+                pats = list(graphcap.patterns(len(f)))
+            else:
+                pats = graphforms.targeted_patterns(rng, n, f, 160 if big else (90 if deep else 60))
+            out.append(("big:" + k, n, f, pats))
     return out
 
 
@@ -307,18 +417,47 @@ def correspond(ctx):
         infos.append((kind, info))
 
     modes = [("cyc", False), ("cyc", True), ("path", True)]
+    oneshot_at, side = set(), []
     for (tag, n, es) in graph_scope(ctx, "tie"):
         for (kind, prim) in modes:
-            forms = FORMS if (tag != "ex" or len(es) <= 3 or ctx.thorough) else ["vars", rng.choice(FORMS[1:])]
+            if tag in ("ex-flip", "loops") and not ctx.thorough:
+                forms = [rng.choice(FORMS), "mixed"]
+            elif tag.startswith("big:") and not ctx.thorough:
+                forms = ["vars", "mixed", rng.choice(FORMS[1:4])]
+            else:
+                forms = FORMS if (tag != "ex" or len(es) <= 3 or ctx.thorough) else ["vars", rng.choice(FORMS[1:])]
             for form in forms:
                 cont = rng.choice(["S", "S", "T", "A"])
-                how = rng.choice(["public", "public", "internal", "config"])
+                how = rng.choice(["public", "public", "internal", "config", "none", "kwargs"])
                 if how == "internal":
                     cont = "S"
                 pre = rng.choice([0, 0, 1, 2])
                 ctx.count("tie:%s:%s:%s" % (kind, "prim" if prim else "enc", form))
                 add("post_" + kind, (kind, prim, n, es, form, cont, how, pre),
                     run_impl(kind, prim, n, es, form, cont, rng, pre, how))
+    # one-shot iterables as is_active_edge (generator, iter, map, reversed): the documented argument is a sequence, so
+    # the call may refuse them (TypeError) -- but it must never post something else than for the materialised list
+    scope = graph_scope(ctx, "tie")
+    for (tag, n, es) in scope[::(3 if ctx.thorough else 7)] + [t for t in scope if t[0].startswith("big:")][::4]:
+        for (kind, prim) in modes:
+            form = rng.choice(FORMS)
+            cont = rng.choice(graphforms.ONESHOT)
+            how = rng.choice(["public", "config", "none", "kwargs"])
+            ctx.count("tie:oneshot:%s" % cont)
+            oneshot_at.add(len(reqs))
+            add("post_%s_oneshot" % kind, (kind, prim, n, es, form, cont, how), run_impl(kind, prim, n, es, form, cont, rng, 0, how))
+    # histories: the same Solver / Graph object / flag list used for two calls
+    hist = [t for t in scope if t[0] in ("rnd", "ex-flip", "loops") or t[0] in NAMED or t[0].startswith("big:")]
+    for (tag, n, es) in hist[::(2 if ctx.thorough else 5)]:
+        (k1, p1), (k2, p2) = rng.choice(modes), rng.choice(modes)
+        mode = rng.choice(["same", "extend", "extend", "linegraph"])
+        ctx.count("tie:history:" + mode)
+        for (kind, info, req, want, io) in run_history(k1, p1, k2, p2, n, es, rng.choice(["vars", "vars", "mixed", "const", "neg"]),
+                                                       rng, mode, rng.choice([0, 2])):
+            if req is None:
+                side.append((kind, info, want, io))
+            else:
+                add(kind, info, (req, io))
     # the path has no non-primitive form: RuntimeError
     for (tag, n, es) in graph_scope(ctx, "tie")[::37]:
         add("post_path", ("path", False, n, es, "vars"), run_impl("path", False, n, es, "vars", "S", rng, 0, "public"))
@@ -352,12 +491,21 @@ def correspond(ctx):
                 ctx.count("tie:frame:%s:%s" % (kind, form))
                 add("frame_" + kind, (kind, prim, h, w, form), run_impl_frame(kind, prim, h, w, form, rng, rng.choice([0, 2])))
     outs = m.batch(reqs)
-    for (kind, info), o, io in zip(infos, outs, impls):
-        ctx.corr(kind, info, parse_model(o), io)
+    for i, ((kind, info), o, io) in enumerate(zip(infos, outs, impls)):
+        mo = parse_model(o)
+        if i in oneshot_at and io == ("err", "TypeError"):
+            ctx.count("tie:oneshot:refused(TypeError)")
+            io = mo                         # refusing a one-shot iterable is allowed; anything else must equal the list form
+        ctx.corr(kind, info, mo, io)
+    for (kind, info, want, io) in side:
+        ctx.corr(kind, info, want, io)
 
     # Graph.line_graph as a set (also with self-loops)
     lg_graphs = [(n, es) for n, es in graphcap.all_multigraphs(3, 4, loops=True)]
     lg_graphs += [graphcap.random_multigraph(rng, 8, loops=True) for _ in range(100)]
+    # many more edges than vertices (pair keys built from the wrong count collide), mixed orientation, bundles
+    for (k, n, es) in graphforms.structured(rng, loops=True):
+        lg_graphs += [(n, es), (n, graphforms.shuffled(rng, es))]
     outs = m.batch(["LG " + graphcap.graph_tok(n, es).strip() for n, es in lg_graphs])
     for (n, es), o in zip(lg_graphs, outs):
         t = [int(x) for x in o.split()]
@@ -390,6 +538,20 @@ def ev(e, asg):
         return a[0] != a[1]
     if o == Op.IMP:
         return (not a[0]) or a[1]
+    if o in (Op.BOOL_CONSTANT, Op.INT_CONSTANT):
+        return a[0]
+    if o == Op.IF:
+        return a[1] if a[0] else a[2]
+    if o == Op.ADD:
+        return sum(a)
+    if o == Op.SUB:
+        return a[0] - sum(a[1:])
+    if o == Op.NEG:
+        return -a[0]
+    cmp = {Op.EQ: lambda x, y: x == y, Op.NE: lambda x, y: x != y, Op.LE: lambda x, y: x <= y, Op.LT: lambda x, y: x < y,
+           Op.GE: lambda x, y: x >= y, Op.GT: lambda x, y: x > y}
+    if o in cmp:
+        return cmp[o](a[0], a[1])
     raise ValueError("flag expression outside the evaluator: %s" % o)
 
 
@@ -430,9 +592,18 @@ class Posted:
         self.evars, self.passed = post(self.s)   # edge flag variables (list), returned flat list
         self.avc = [c for c in self.s.constraints if _is_avc(c)]
         s2 = Solver()
-        s2.variables = self.s.variables
+        s2.variables = list(self.s.variables)
         s2.is_answer_key = list(self.s.is_answer_key)
         s2.constraints = [unconst(c) for c in self.s.constraints if not _is_avc(c)]
+        # auxiliary (harness side only): e_i <-> i-th returned entry, x_i = its expected value, diff <-> some e_i != x_i
+        from cspuz.expr import BoolExpr, Op
+        self.es = [s2.bool_var() for _ in self.passed]
+        self.xs = [s2.bool_var() for _ in self.passed]
+        self.diff = s2.bool_var()
+        for q, e in zip(self.passed, self.es):
+            s2.constraints.append(BoolExpr(Op.IFF, [e, unconst(q)]))
+        if self.passed:
+            s2.constraints.append(BoolExpr(Op.IFF, [self.diff, BoolExpr(Op.OR, [BoolExpr(Op.XOR, [e, x]) for e, x in zip(self.es, self.xs)])]))
         self.chk = graphcap.z3_session(s2)
         self.s2 = s2
 
@@ -444,7 +615,13 @@ class Posted:
         return self.chk(list(zip(self.evars, pat)) + list(extra))
 
     def passed_values(self, pat, i):
-        return {val for val in (False, True) if self.sat(pat, [(self.passed[i], val)])}
+        return {val for val in (False, True) if self.sat(pat, [(self.es[i], val)])}
+
+    def passed_ok(self, pat, expected):
+        """in every solution with the flags fixed to pat, the returned entries equal `expected` (one z3 call)"""
+        if not self.passed:
+            return True
+        return not self.sat(pat, list(zip(self.xs, expected)) + [(self.diff, True)])
 
 
 def check_patterns(ctx, label, key0, posted, n, edges, pats, oracle, desc, spec_rows=None):
@@ -467,6 +644,12 @@ def check_patterns(ctx, label, key0, posted, n, edges, pats, oracle, desc, spec_
             continue
         if got:
             deg = graphcap.edge_degrees(n, edges, list(pat))
+            if len(posted.passed) != n:
+                ctx.violation("%s-passed-length:%s" % (label, key0), "%s: the returned array does not have one entry per vertex" % label,
+                              {"helper": label, "graph": desc, "n": n, "edges": [list(e) for e in edges], "length": len(posted.passed)})
+                continue
+            if posted.passed_ok(pat, [d > 0 for d in deg]):
+                continue                     # every admitted value of every entry is the expected one
             for i in range(n):
                 vals = posted.passed_values(pat, i)
                 if vals != {deg[i] > 0}:
@@ -534,6 +717,236 @@ def frame_patterns(ctx, n, edges, limit):
     return sorted(pats)
 
 
+# ---------------------------------------------------------------- scenarios: argument forms, option forms, histories
+
+HELPERS = {"cycle": ("cyc", False, graphcap.is_single_cycle), "cycle-prim": ("cyc", True, graphcap.is_single_cycle),
+           "path-prim": ("path", True, graphcap.is_single_path)}
+
+
+def decl_tokens(solver):
+    from cspuz.expr import BoolVar
+    return ["b" if isinstance(v, BoolVar) else "i:%d:%d" % (v.lo, v.hi) for v in solver.variables]
+
+
+def call_helper(s, helper, carg, g, how):
+    """one public call; `how` = the way use_graph_primitive reaches the function"""
+    from cspuz import graph as G
+    from cspuz.configuration import config
+    kind, prim, _ = HELPERS[helper]
+    f = G.active_edges_single_cycle if kind == "cyc" else G.active_edges_single_path
+    if how == "kw":
+        return f(s, carg, g, use_graph_primitive=prim)
+    if how == "kwargs":
+        return f(solver=s, is_active_edge=carg, graph=g, use_graph_primitive=prim)
+    old = config.use_graph_primitive
+    config.use_graph_primitive = prim
+    try:
+        if how == "none":
+            return f(s, carg, g, use_graph_primitive=None)
+        return f(s, carg, graph=g)          # "config"
+    finally:
+        config.use_graph_primitive = old
+
+
+class Scenario(Posted):
+    """a JSON-able scenario run on the real code: {"decl": caller variables, "n": vertices, "same_list": bool,
+    "calls": [{"helper", "edges" (edge list of the one Graph object at the time of the call: a prefix extension of the
+    previous call's), "newdecl", "flags" (tree strings over the caller's variables; c<k> = k-th caller variable), "cont", "how"}]}"""
+
+    def __init__(self, sc):
+        self.sc = sc
+        self.trees = []
+        self.unchanged = True
+        Posted.__init__(self, self._post)
+
+    def _post(self, s):
+        from cspuz.array import BoolArray1D
+        from cspuz.graph import Graph
+        sc = self.sc
+        n = sc["n"]
+        callers, passed = [], []
+
+        def declare(tokens):
+            for t in tokens:
+                if t == "b":
+                    callers.append(s.bool_var())
+                else:
+                    _, lo, hi = t.split(":")
+                    callers.append(s.int_var(int(lo), int(hi)))
+        declare(sc["decl"])
+        g = Graph(n)
+        flaglist = []
+        for call in sc["calls"]:
+            declare(call.get("newdecl", []))
+            edges = [tuple(e) for e in call["edges"]]
+            for (a, b) in edges[len(g.edges):]:
+                g.add_edge(a, b)
+            # a token c<k> stands for the k-th caller variable (those declared between two calls have ids unknown beforehand)
+            flags = [exprio.parse(" ".join(exprio.show(callers[int(w[1:])]) if w[0] == "c" else w for w in t.split()), s.variables)
+                     for t in call["flags"]]
+            if sc.get("same_list"):
+                flaglist.extend(flags[len(flaglist):])      # the same list object again, extended by the caller
+            else:
+                flaglist = flags
+            self.trees.append(list(flaglist))
+            cont = call.get("cont", "S")
+            if cont == "S":
+                carg = flaglist
+            elif cont == "T":
+                carg = tuple(flaglist)
+            elif cont == "A":
+                carg = BoolArray1D(flaglist)
+            else:
+                carg = graphforms.oneshot(cont, flaglist)
+            snap_f, snap_g = list(flaglist), graph_snapshot(g)
+            res = call_helper(s, call["helper"], carg, g, call.get("how", "kw"))
+            if not (len(flaglist) == len(snap_f) and all(a is b for a, b in zip(flaglist, snap_f))
+                    and graph_snapshot(g) == snap_g == graph_snapshot(graphcap.mk_graph(n, edges))):
+                self.unchanged = False
+            if not isinstance(res, BoolArray1D):
+                raise TypeError("result is not a BoolArray1D")
+            passed += list(res.data)
+        return callers, passed
+
+    def expected(self, val):
+        """(should the whole program be satisfiable, expected values of the returned arrays) for caller values val"""
+        asg = {v.id: x for v, x in zip(self.evars, val)}
+        want, exp, pats = True, [], []
+        for call, trees in zip(self.sc["calls"], self.trees):
+            edges = [tuple(e) for e in call["edges"]]
+            pat = [bool(ev(t, asg)) for t in trees[:len(edges)]]
+            pats.append("".join("1" if b else "0" for b in pat))
+            want = want and HELPERS[call["helper"]][2](self.sc["n"], edges, pat)
+            exp += [d > 0 for d in graphcap.edge_degrees(self.sc["n"], edges, pat)]
+        return want, exp, pats
+
+
+def scenario_key(sc):
+    import hashlib
+    import json
+    return hashlib.md5(json.dumps(sc, sort_keys=True).encode()).hexdigest()[:10]
+
+
+def random_values(rng, evars):
+    from cspuz.expr import BoolVar
+    return [rng.random() < 0.55 if isinstance(v, BoolVar) else rng.randint(v.lo, v.hi) for v in evars]
+
+
+def check_scenario(ctx, label, sc, rng, nvals):
+    """run the scenario, then compare satisfiability / returned arrays with the oracle for nvals caller assignments"""
+    key = "%s:%s" % (label, scenario_key(sc))
+    r = vlib.guarded(Scenario, sc)
+    if r[0] == "err":
+        ctx.prop_case(label + ":raises", key)
+        ctx.violation(key + ":raises", "%s: a well-formed call sequence raises %s" % (label, r[1]), {"scenario": sc, "error": r[1]})
+        return
+    P = r[1]
+    if not P.unchanged:
+        ctx.violation(key + ":args", "%s: the flag list or the Graph passed in was modified by the call" % label, {"scenario": sc})
+    # caller assignments: about half of them chosen among those whose edge subsets are admitted (rare under uniform sampling)
+    cands, seen = {True: [], False: []}, set()
+    for _ in range(40 * nvals):
+        val = random_values(rng, P.evars)
+        if tuple(val) not in seen:
+            seen.add(tuple(val))
+            cands[P.expected(val)[0]].append(val)
+        if len(cands[True]) >= nvals and len(cands[False]) >= nvals:
+            break
+    k = min(len(cands[True]), (nvals + 1) // 2)
+    for val in cands[True][:k] + cands[False][:nvals - k]:
+        want, exp, pats = P.expected(val)
+        got = P.sat(val)
+        ctx.prop_case(label, (key, tuple(val)))
+        ctx.count("scenario:%s:%s" % (label, "sat" if want else "unsat"))
+        detail = {"scenario": sc, "caller_values": [int(x) if not isinstance(x, bool) else x for x in val],
+                  "active_per_call": pats, "expected_sat": want, "observed_sat": got}
+        if got != want:
+            ctx.violation("%s:%s" % (key, "".join(str(int(x)) for x in val)),
+                          "%s: posted constraints are %s for edge subsets that %s" % (
+                              label, "satisfiable" if got else "unsatisfiable", "are not admitted" if got else "must be admitted"), detail)
+        elif got and len(P.passed) == len(exp) and not P.passed_ok(val, exp):
+            bad = [i for i in range(len(exp)) if P.passed_values(val, i) != {exp[i]}]
+            ctx.violation("%s-passed:%s:%s" % (key, "".join(str(int(x)) for x in val), bad[:1]),
+                          "%s: a returned array entry can take a value other than 'vertex is visited'" % label,
+                          dict(detail, entries=bad, visited=exp))
+        elif got and len(P.passed) != len(exp):
+            ctx.violation(key + ":length", "%s: the returned arrays do not have one entry per vertex" % label, detail)
+
+
+def flag_strings(rng, m, form):
+    """(caller declarations, flag tree strings) of one flag list of form `form`"""
+    from cspuz import Solver
+    s0 = Solver()
+    pre_state(s0, rng, 1)
+    acts = make_acts(s0, m, form, rng)
+    return decl_tokens(s0), [exprio.show(a) for a in acts]
+
+
+def search_scenarios(ctx):
+    rng = ctx.rng
+    big = ctx.thorough
+    deep = getattr(ctx, "deep", False)
+    helpers = list(HELPERS)
+    small = [(n, es) for n, es in graphcap.all_multigraphs(4, 4) if len(es) >= 1]
+    pool = rng.sample(small, 90 if big else (50 if deep else 28))
+    pool = [(n, graphforms.shuffled(rng, es) if i % 2 else es) for i, (n, es) in enumerate(pool)]
+    pool += [graphcap.random_multigraph(rng, 6, loops=(i % 5 == 0)) for i in range(60 if big else (30 if deep else 16))]
+    pool += [(n, es) for (k, n, es) in graphforms.structured(rng, loops=True)][::(1 if big else 4)]
+    # (a) flags given as expressions / Python constants, every container kind, every way of giving the option
+    for (n, es) in pool:
+        for helper in helpers:
+            form = rng.choice(["neg", "and", "const", "mixed", "mixed"])
+            decl, flags = flag_strings(rng, len(es), form)
+            sc = {"decl": decl, "n": n, "calls": [{"helper": helper, "edges": [list(e) for e in es], "flags": flags,
+                                                   "cont": rng.choice(["S", "T", "A"]),
+                                                   "how": rng.choice(["kw", "config", "none", "kwargs"])}]}
+            ctx.count("scenario-form:" + form)
+            check_scenario(ctx, "expr-flags", sc, rng, 8 if len(es) > 2 else 4)
+    # (b) histories: two calls on the same Solver and Graph object; the same flag list, or the Graph extended in between
+    for i, (n, es) in enumerate(pool):
+        if n < 2 or len(es) > 9:
+            continue
+        h1, h2 = rng.choice(helpers), rng.choice(helpers)
+        mode = ["same", "extend", "extend-fresh-flags"][i % 3]
+        form = rng.choice(["vars", "vars", "neg", "mixed"])
+        decl, flags = flag_strings(rng, len(es), form)
+        c1 = {"helper": h1, "edges": [list(e) for e in es], "flags": flags, "cont": "S", "how": "kw"}
+        if mode == "same":
+            c2 = dict(c1, helper=h2)
+            sc = {"decl": decl, "n": n, "same_list": True, "calls": [c1, c2]}
+        else:
+            a = rng.randrange(n)
+            b = (a + 1 + rng.randrange(n - 1)) % n
+            es2 = [list(e) for e in es] + [[a, b]]
+            if mode == "extend":
+                c2 = {"helper": h2, "edges": es2, "newdecl": ["b"], "flags": flags + ["c%d" % len(decl)], "cont": "S", "how": "kw"}
+                sc = {"decl": decl, "n": n, "same_list": True, "calls": [c1, c2]}
+            else:
+                k = len(decl)
+                c2 = {"helper": h2, "edges": es2, "newdecl": ["b"] * len(es2), "flags": ["c%d" % (k + j) for j in range(len(es2))],
+                      "cont": rng.choice(["S", "T", "A"]), "how": "kw"}
+                sc = {"decl": decl, "n": n, "same_list": False, "calls": [c1, c2]}
+        ctx.count("scenario-history:" + mode)
+        check_scenario(ctx, "history-" + mode, sc, rng, 10)
+    # (c) one-shot iterables: refused with TypeError, or the same program as for the materialised list
+    for (n, es) in pool[::2]:
+        helper = rng.choice(helpers)
+        decl, flags = flag_strings(rng, len(es), rng.choice(["vars", "mixed"]))
+        kind = rng.choice(graphforms.ONESHOT)
+        base = {"helper": helper, "edges": [list(e) for e in es], "flags": flags, "cont": "S", "how": "kw"}
+        sc_list = {"decl": decl, "n": n, "calls": [base]}
+        sc_one = {"decl": decl, "n": n, "calls": [dict(base, cont=kind)]}
+        ctx.prop_case("oneshot", (n, tuple(es), helper, kind, tuple(flags)))
+        r1 = vlib.guarded(lambda: show_state_c(Scenario(sc_list).s))
+        r2 = vlib.guarded(lambda: show_state_c(Scenario(sc_one).s))
+        ctx.count("scenario-oneshot:" + (r2[1] if r2[0] == "err" else "accepted"))
+        if r2 != r1 and r2 != ("err", "TypeError"):
+            ctx.violation("oneshot:%s" % scenario_key(sc_one),
+                          "a one-shot iterable as is_active_edge is neither refused (TypeError) nor treated like the list it yields",
+                          {"scenario": sc_one, "list_form": r1[1][:400] if r1[0] == "ok" else r1[1],
+                           "oneshot_form": r2[1][:400] if r2[0] == "ok" else r2[1]})
+
+
 def search(ctx):
     big = ctx.thorough
     deep = getattr(ctx, "deep", False)
@@ -559,7 +972,22 @@ def search(ctx):
                 continue
             ctx.count("search:%s:%s" % (label, tag))
             check_patterns(ctx, label, key0, r[1], n, es, graphcap.patterns(len(es)), oracle, tag,
-                           spec_rows if label == "cycle" else None)
+                           spec_rows if label == "cycle" and tag != "loops" else None)
+    for (tag, n, es, pats) in big_scope(ctx):
+        key0 = "n%d:%s" % (n, ",".join("%d-%d" % e for e in es))
+        if enough():
+            break
+        for (kind, prim, label, oracle) in modes:
+            r = vlib.guarded(Posted, post_graph(kind, prim, n, es))
+            if r[0] == "err":
+                ctx.violation("%s-raises:%s" % (label, key0), "%s raises %s on a well-formed graph" % (label, r[1]),
+                              {"helper": label, "n": n, "edges": [list(e) for e in es], "error": r[1]})
+                continue
+            ctx.count("search:%s:big" % label)
+            check_patterns(ctx, label, key0, r[1], n, es, pats, oracle, tag,
+                           spec_rows if label == "cycle" and not any(a == b for a, b in es) else None)
+    if not enough():
+        search_scenarios(ctx)
     for (h, w) in frame_shapes(ctx, "search"):
         n, es = lattice(h, w)
         if enough():
@@ -602,6 +1030,22 @@ def search(ctx):
 def replay(ctx, rp):
     v = rp.get("violation", {}).get("detail", {})
     print(rp)
+    if v and "scenario" in v:
+        r = vlib.guarded(Scenario, v["scenario"])
+        if r[0] == "err":
+            print("scenario raises", r[1])
+            return 1 if (v.get("error") or "oneshot_form" in v) else 0
+        P = r[1]
+        if "caller_values" not in v:
+            print("arguments unchanged:", P.unchanged)
+            return 0 if P.unchanged else 1
+        val = v["caller_values"]
+        want, exp, pats = P.expected(val)
+        got = P.sat(val)
+        print("posted program satisfiable:", got, " oracle:", want, " active edges per call:", pats)
+        if got != want:
+            return 1
+        return 0 if (not got or P.passed_ok(val, exp)) else 1
     if not v or "edges" not in v:
         return 0
     n, es = v["n"], [tuple(e) for e in v["edges"]]
